@@ -28,8 +28,6 @@ def run(ctx):
     instances = {}
     # ---- Hill, Shekel (and the one-dimensional Rastrigin function)
     rows = [("Hill", k) for k in range(1000)] + [("Shekel", k) for k in range(1000)]
-    if qk:
-        rows = rng.sample(rows[:1000], 120) + rng.sample(rows[1000:], 120)
     jobs = [(i + 1, fam, fn, TV, DELTA_REL, 1e-3, ("min",), None, {"tvlow_rel": TVLOW_REL, "declared": True}) for i, (fam, fn) in enumerate(rows)]
     jobs.append((900001, "Rastrigin", 1, TV, DELTA_REL, 1e-3, ("min",), None, {"tvlow_rel": TVLOW_REL}))
     # binding demonstration: a declared optimum moved by 1% of the range / lowered by 5e-3 must be refuted
